@@ -42,6 +42,7 @@ def states(tier):
 
 
 LOCAL_OPS = {
+    "iov_cl": ("iov", "CL"),  # inter-occasion variability already on one parameter
     "cov_cl_wgt_lin_add": ("CL", "WGT", "lin", "+"),
     "cov_cl_apgr_exp_mul": ("CL", "APGR", "exp", "*"),
     "cov_vc_wgt_pow_mul": ("VC", "WGT", "pow", "*"),
@@ -60,7 +61,11 @@ def build_state(hist):
     for lab in labels:
         if m is None:
             return None
-        if lab in LOCAL_OPS:
+        if lab in LOCAL_OPS and LOCAL_OPS[lab][0] == "iov":
+            with warnings.catch_warnings():
+                warnings.simplefilter("ignore")
+                m = pm.add_iov(m.replace(dataset=m.dataset.copy()), "FA1", list_of_parameters=[LOCAL_OPS[lab][1]])
+        elif lab in LOCAL_OPS:
             p, c, e, op = LOCAL_OPS[lab]
             with warnings.catch_warnings():
                 warnings.simplefilter("ignore")
@@ -86,6 +91,8 @@ def cases(tier):
         out.append(("error", em))
     out.append(("allometry",))
     out.append(("iov",))
+    out.append(("iov", "CL"))
+    out.append(("iov", "VC"))
     for a in ("abs_fo", "abs_zo", "abs_seq", "transits_1", "transits_3", "transits_3_nodepot"):
         out.append(("absorption", a))
     return out
@@ -325,17 +332,22 @@ def run_case(model, case):
                 elif not close(b, a * 2.0**expo, 1e-9):
                     fails.append(f"{p} at WGT = 2 x reference: ratio {b / a:.6g}, documented 2**{expo}")
         elif kind == "iov":
-            m2, st = call(pm.add_iov, "FA1")
+            if len(case) > 1:
+                m2, st = call(pm.add_iov, "FA1", list_of_parameters=[case[1]])
+            else:
+                m2, st = call(pm.add_iov, "FA1")
             if m2 is None:
                 return st, [], 0
-            envs = mgraph.grid_envs(model)[:1]
+            # neutral at the reference: with the NEW etas at 0 the model function is the old one at every value of the old etas
+            envs = mgraph.grid_envs(model)
             a = mgraph.observe(model, envs)
-            e2 = [(l, dict(ireval.base_env(m2), **{k: v for k, v in e.items() if k in m2.parameters.names})) for l, e in envs]
+            keep = set(m2.parameters.names) | set(m2.random_variables.names)
+            e2 = [(l, dict(ireval.base_env(m2), **{k: v for k, v in e.items() if k in keep})) for l, e in envs]
             b = mgraph.observe(m2, e2)
             compared += 1
             d = mgraph.same_observations(a, b)
             if d:
-                fails.append(f"predictions at eta = 0 change after add_iov: {d}")
+                fails.append(f"predictions with the new etas at 0 change after add_iov: {d}")
         elif kind == "error":
             em = case[1]
             table = {
